@@ -247,6 +247,7 @@ class FsSeam:
         self.epoch = 0
         self.faults = []
         self.fd_paths = {}
+        self.ctime_of = {}
         self.listed = set()
         self.open_table = []
         self.crashed_writers = []
@@ -338,12 +339,27 @@ class FsSeam:
                 pass
 
     @staticmethod
-    def _fix_stat(st):
+    def _fix_stat(st, ctime=None):
+        """Access and change time follow the (simulated) modification time, unless the inode was changed
+        without its contents (chmod, chown, link, utime by somebody): then the change time is that moment."""
         m = st.st_mtime
         mns = st.st_mtime_ns
         mi = int(m)
+        c = m if ctime is None or ctime < m else ctime
         return os.stat_result((st.st_mode, st.st_ino, st.st_dev, st.st_nlink, st.st_uid,
-                               st.st_gid, st.st_size, mi, mi, mi, m, m, m, mns, mns, mns))
+                               st.st_gid, st.st_size, mi, mi, int(c), m, m, c, mns, mns, int(c * 1e9)))
+
+    def _ctime(self, path):
+        if not self.ctime_of:
+            return None
+        try:
+            return self.ctime_of.get(os.path.abspath(os.fsdecode(os.fspath(path))))
+        except (TypeError, ValueError):
+            return None
+
+    def inode_changed(self, path):
+        """An admin's chmod / chown / ln on path, now."""
+        self.ctime_of[os.path.abspath(os.fsdecode(os.fspath(path)))] = self.now()
 
     # ------------------------------------------------------------ wrappers
     def w_stat(self, path, *a, **kw):
@@ -359,7 +375,7 @@ class FsSeam:
                 self._vanish(path)
             else:
                 raise _mk_oserror(f.kind, path)
-        return self._fix_stat(_real["stat"](path, *a, **kw))
+        return self._fix_stat(_real["stat"](path, *a, **kw), self._ctime(path))
 
     def w_lstat(self, path, *a, **kw):
         rel = self._rel(path)
@@ -372,7 +388,7 @@ class FsSeam:
                 self._vanish(path)
             else:
                 raise _mk_oserror(f.kind, path)
-        return self._fix_stat(_real["lstat"](path, *a, **kw))
+        return self._fix_stat(_real["lstat"](path, *a, **kw), self._ctime(path))
 
     def permute(self, rel, names):
         names = sorted(names)
@@ -413,6 +429,9 @@ class FsSeam:
         if rel is None:
             return _real["unlink"](path, *a, **kw)
         self._yield("unlink")
+        f = self._match("unlink", rel)
+        if f is not None:
+            raise _mk_oserror(f.kind, path)
         r = _real["unlink"](path, *a, **kw)
         self._stamp_parent(path)
         return r
@@ -484,6 +503,15 @@ class FsSeam:
         if f is not None:
             if f.kind == "vanish":
                 self._vanish(file)
+            elif f.kind == "shrink":
+                # somebody put a shorter file in its place after the caller last looked at it
+                try:
+                    sz = os.path.getsize(file)
+                    with real_open(file, "rb+") as fh:
+                        fh.truncate(int(sz * (f.cut if f.cut is not None else 0.5)))
+                    self.count("shrunk_before_open")
+                except OSError:
+                    pass
             else:
                 raise _mk_oserror(f.kind, file)
         try:
